@@ -716,3 +716,12 @@ CONFIGS['ps_cb3'] = dict(_B3, immediate=False, max_chan=2, rooms=[],
                          max_sid=2, transports=['t1', 't3'],
                          host_of={'t1': 'h1', 't3': 'h3'})
 CONFIGS['ps_delay_chan3'] = dict(CONFIGS['ps_delay_quick'], max_chan=3)
+
+# lists of rooms / session ids whose members live on different hosts
+CONFIGS['ps_list_quick'] = dict(_BASE, immediate=True, max_chan=1,
+                                rooms_q=False, rxdisc=False, lost=False,
+                                disc=False, leave=False, close=False,
+                                emit_to=[('list', ['r1', 's2']),
+                                         ('list', ['s1', 's2']),
+                                         ('list', ['s2', 'r1'])],
+                                emit_skip=[('none', []), ('one', ['s2'])])
